@@ -71,52 +71,15 @@ def display_impls(prog):
     return out
 
 
-def is_err_ret(s):
-    return s.kind == 'return' and s.ret is not None and s.ret[0] == 'adt' and s.ret[2] == 'Err'
-
-
-def segment_nfa(em):
-    """NFA over the segments that can lead to an Ok return; -> (nfa, problems)"""
-    n = emit.NFA()
-    ids = {}
-
-    def node(x):
-        if x not in ids:
-            ids[x] = n.new() if ids else n.start
-        return ids[x]
-    entry = None
-    for s in em.segs:
-        if s.src[0] == 'entry':
-            entry = s.src
-    if entry is None:
-        return None
-    node(entry)
-    bad = []
-    for s in em.segs:
-        if s.kind == 'panic' or is_err_ret(s) or s.kind == 'unreachable':
-            continue
-        sy = em.symbols(s)
-        if sy is None:
-            bad.append(em.problems[-1] if em.problems else 'segment not understood')
-            continue
-        a = node(s.src)
-        if s.kind == 'return':
-            if not (s.ret and s.ret[0] == 'adt' and s.ret[2] == 'Ok'):
-                # result of the last write returned directly: the emission is complete here as well
-                pass
-            b = node(('return',))
-        else:
-            b = node(s.dst)
-        n.chain(a, sy, b)
-    n.accept = {node(('return',))}
-    return n, bad
+is_err_ret = emit.is_err_ret
+segment_nfa = emit.segment_nfa
 
 
 def guards(prog, em, ty, full):
     """optional field printed iff present; every fetched element printed; empty form only when everything printed is empty"""
     bad = []
     e = em.e
-    fs = terms.struct_fields(prog.facts, full) or []
+    fs = (terms.struct_fields(prog.facts, full) or []) if full else []
     opt_fields = [(i, emit.simple_ty(f['ty'])) for i, f in enumerate(fs) if terms.norm_ty(f['ty']).startswith('std::option::Option<') and 'Box<[' not in f['ty']]
     coll_fields = [(i, emit.simple_ty(f['ty'])) for i, f in enumerate(fs) if re.match(r'^(std::vec::Vec<|std::collections::BTreeMap<)', terms.norm_ty(f['ty']))]
     optslice = [(i, emit.simple_ty(f['ty'])) for i, f in enumerate(fs) if 'Option<std::boxed::Box<[' in terms.norm_ty(f['ty'])]
@@ -126,7 +89,8 @@ def guards(prog, em, ty, full):
         sy = em.symbols(s)
         if sy is None:
             continue
-        syms = [x for x in sy if isinstance(x, str)] + [y for x in sy if isinstance(x, tuple) for alt in x[1] for y in alt if isinstance(y, str)]
+        syms = [x for x in sy if isinstance(x, str)] + [y for x in sy if isinstance(x, tuple) and x[0] in ('ALT', 'STAR') for alt in x[1] for y in alt if isinstance(y, str)] \
+            + [y for x in sy if isinstance(x, tuple) and x[0] == 'SUB' for y in x[1].alphabet() if isinstance(y, str)]
         facts = s.facts
         if s.src[0] == 'entry':
             for i, role in opt_fields:
@@ -222,6 +186,9 @@ def check_display(prog, rep, wanted=None):
             rep.ob('emit:%s:grammar' % ty, 'EMIT-GRAMMAR', fn, b['span'], 'Display for %s emits exactly  %s' % (ty, TEXT[ty]), not bad, detail='\n'.join(sorted(set(bad))[:4]), how=how,
                    witness=None)
             g = guards(prog, em, ty, full)
+            for sub in em.subs:
+                # a printing helper with loops: every element it fetches is printed, its loops end only at the end of their collection
+                g = sorted(set(g) | set(x for x in guards(prog, sub, '(helper)', None) if 'fetched' in x or 'may stop' in x or 'INCONCLUSIVE' in x))
             rep.ob('emit:%s:guards' % ty, 'EMIT-GUARD', fn, b['span'],
                    'Display for %s prints each optional part iff it is present, every element of every collection, and nothing only when everything is empty' % ty,
                    not g, detail='\n'.join(g[:4]))
